@@ -256,4 +256,20 @@ func c03Impl(r *R) {
 		r.guardedCalls("C03.6", orr, false, "(*channels.Channels).ResponderCompletes", 1, "+response.IsComplete()", "-response.IsPaused()")
 		r.guardedCalls("C03.6", orr, false, "(*channels.Channels).ResponderBeginsFinalization", 1, "+response.IsComplete()", "+response.IsPaused()")
 	}
+	// the responder's own messages report its pause state as it is: the Complete /
+	// voucher-result response sent by SendVoucherResult carries ResponderPaused()
+	if sv := r.fn("C03.6", "impl", "manager", "SendVoucherResult"); sv != nil {
+		if gb := r.one("C03.6", sv, "(*channels.Channels).GetByID"); gb != nil {
+			st := r.v(gb) + "#0"
+			n := 0
+			for _, callee := range []string{"dyn:message.CompleteResponse", "dyn:message.VoucherResultResponse"} {
+				for _, s := range r.sites(sv, false, callee) {
+					n++
+					r.argIs("C03.6", s, 2, st+".ResponderPaused()", "pause state announced with the voucher result")
+					r.argIs("C03.6", s, 1, st+".Status().IsAccepted()", "accepted flag announced with the voucher result")
+				}
+			}
+			r.c.Floor("C03.6", n, 2, "response constructors in SendVoucherResult")
+		}
+	}
 }
